@@ -64,7 +64,7 @@ def constants():
 
     out = {}
     for n in ("kboltz", "clight", "h_mks", "G", "mh", "stefan_boltzmann_constant_mks"):
-        out[n] = float(getattr(pc, n).in_mks().v)
+        out[n] = float(getattr(pc, n + ("" if n.endswith("_mks") else "_mks")).v)
     return out
 
 
@@ -331,10 +331,15 @@ class Sweep:
         chk.count("kw:" + ("default" if not kw else "+".join(sorted(kw))))
         cond = lorentz_cond(eq, a, np.array(vals) * float(Ua.base_value), C)
         # --- result unit -------------------------------------------------------------------
+        call_src = {"to_equivalent": f"r2 = x.to_equivalent({ub!r}, {eq!r}{kws})",
+                    "to": f"r2 = x.to({ub!r}, {eq!r}{kws})", "in_units": f"r2 = x.in_units({ub!r}, equivalence={eq!r}{kws})",
+                    "to_value": f"r2 = unyt_array(x.to_value({ub!r}, {eq!r}{kws}), {ub!r})",
+                    "convert_to_equivalent": f"r2 = x.copy(); r2.convert_to_equivalent({ub!r}, {eq!r}{kws})",
+                    "convert_to_units": f"r2 = x.copy(); r2.convert_to_units({ub!r}, equivalence={eq!r}{kws})"}
         for rn, rv in res.items():
             if rv.units != Ub or rv.units.dimensions != db:
                 chk.fail(f"unit|{keyp}|{rn}", f"{rn}: result is not in the requested unit",
-                         {"python": snippet(head + f"r = x.to_equivalent({ub!r}, {eq!r}{kws})\nassert r.units == Unit({ub!r}), r.units\n"), "units": [ua, ub]})
+                         {"python": snippet(head + f"{call_src[rn]}\nassert r2.units == Unit({ub!r}), r2.units\n"), "units": [ua, ub]})
         # --- entry points agree; in-place == copy --------------------------------------------
         for rn, rv in res.items():
             if rn == "to_equivalent":
@@ -343,10 +348,7 @@ class Sweep:
             tol = SAME_RTOL * max(1.0, min(cond, 1e12))
             if not e <= tol:
                 kind = "inplace" if rn.startswith("convert_") else "entry"
-                call = {"to": f"r2 = x.to({ub!r}, {eq!r}{kws})", "in_units": f"r2 = x.in_units({ub!r}, equivalence={eq!r}{kws})",
-                        "to_value": f"r2 = unyt_array(x.to_value({ub!r}, {eq!r}{kws}), {ub!r})",
-                        "convert_to_equivalent": f"r2 = x.copy(); r2.convert_to_equivalent({ub!r}, {eq!r}{kws})",
-                        "convert_to_units": f"r2 = x.copy(); r2.convert_to_units({ub!r}, equivalence={eq!r}{kws})"}[rn]
+                call = call_src[rn]
                 chk.fail(f"{kind}|{keyp}|{rn}", f"{rn} disagrees with to_equivalent (rel. error {e:.3g})",
                          {"python": snippet(head + f"r = x.to_equivalent({ub!r}, {eq!r}{kws})\n{call}\nassert relerr(r2.d, r.d) <= {tol!r}, (r2, r)\n"),
                           "equivalence": eq, "units": [ua, ub]})
@@ -576,6 +578,19 @@ class Sweep:
                     exp = "err:" + core.exc_name(e)
                 chk.count("wrapper-route:" + (exp if isinstance(exp, str) else "value"))
                 chk.case(("wrapper", eq, ua, ub, mode, tuple(kw)))
+                # direct oracle for the same-dimension request: the equivalence must not matter
+                from unyt import Unit as _U
+                if eq in self.reg and not kw and _U(ua).dimensions == _U(ub).dimensions and not isinstance(exp, str):
+                    plain = float(unyt_array(np.array([v]), ua).to(ub).d[0])
+                    if not relerr(exp, plain) <= SAME_RTOL:
+                        call = f"r = x.to({ub!r}, {eq!r})" if mode == "copy" else f"x.convert_to_units({ub!r}, equivalence={eq!r}); r = x"
+                        chk.fail(f"same-dimension|{eq}|{mode}", f"{ua}->{ub} with equivalence={eq!r} differs from the plain conversion",
+                                 {"python": snippet(f"x = unyt_array(np.array([{v!r}]), {ua!r})\nplain = unyt_array(np.array([{v!r}]), {ua!r}).to({ub!r})\n{call}\nassert relerr(r.d, plain.d) <= {SAME_RTOL!r} and r.units == plain.units, (r, plain)\n"),
+                                  "equivalence": eq, "units": [ua, ub]})
+                elif eq in self.reg and not kw and _U(ua).dimensions == _U(ub).dimensions:
+                    call = f"x.to({ub!r}, {eq!r})" if mode == "copy" else f"x.convert_to_units({ub!r}, equivalence={eq!r})"
+                    chk.fail(f"same-dimension|{eq}|{mode}|{exp[4:]}", f"{ua}->{ub} with equivalence={eq!r} raised {exp[4:]}",
+                             {"python": snippet(f"x = unyt_array(np.array([{v!r}]), {ua!r})\n{call}\n"), "equivalence": eq, "units": [ua, ub]})
                 try:
                     fa, fb_ = self.wire(ua), self.wire(ub)
                 except ValueError:
